@@ -1,7 +1,8 @@
 import PybtexModel.Drv.Json
-import PybtexModel.Spec.OrderedMap
+import PybtexModel.Spec.OrderedMapU
 open Lean
 namespace Pybtex.Drv.C13
+open Pybtex.Uni
 
 def parsePairs (l : List Json) : Except String (List (Str × Int)) :=
   l.mapM fun p => do
